@@ -1,6 +1,7 @@
 package main
 
 import (
+	"sync"
 	"encoding/json"
 	"flag"
 	"fmt"
@@ -522,12 +523,31 @@ type selftestEntry struct {
 func runSelftest(repo, verif, prop string) []selftestEntry {
 	dirs, _ := filepath.Glob(filepath.Join(verif, "seeded", prop+"_*"))
 	sort.Strings(dirs)
+	// four seeds at a time (each run is a whole quick check of the property on its own scratch copy)
+	out := make([]selftestEntry, len(dirs))
+	sem := make(chan struct{}, 4)
+	var wg sync.WaitGroup
+	for i, d := range dirs {
+		wg.Add(1)
+		go func(i int, d string) {
+			defer wg.Done()
+			sem <- struct{}{}
+			defer func() { <-sem }()
+			out[i] = runSelftestOne(repo, verif, prop, d)
+		}(i, d)
+	}
+	wg.Wait()
+	return out
+}
+
+func runSelftestOne(repo, verif, prop, d string) selftestEntry {
 	var out []selftestEntry
-	for _, d := range dirs {
+	for range []int{0} {
 		e := selftestEntry{Seed: filepath.Base(d)}
 		tmp, err := os.MkdirTemp("", "vcgo-selftest")
 		if err != nil {
-			continue
+			e.Note = "no scratch directory: " + err.Error()
+			return e
 		}
 		scratch := filepath.Join(tmp, "repo")
 		cp := exec.Command("rsync", "-a", "--exclude", ".git", "--exclude", "cmd/participle/participle", repo+"/", scratch+"/")
@@ -561,7 +581,10 @@ func runSelftest(repo, verif, prop string) []selftestEntry {
 		out = append(out, e)
 		os.RemoveAll(tmp)
 	}
-	return out
+	if len(out) == 0 {
+		return selftestEntry{Seed: filepath.Base(d), Note: "not run"}
+	}
+	return out[0]
 }
 
 func lastLines(s string, n int) string {
